@@ -92,8 +92,14 @@ pub fn write_float_scientific<F: DragonboxFloat, const FORMAT: u128>(
     let digit_count = F::write_digits(digits, fp.mant);
 
     // Truncate and round the significant digits.
-    let (digit_count, carried) = shared::truncate_and_round_decimal(digits, digit_count, options);
+    let (mut digit_count, carried) =
+        shared::truncate_and_round_decimal(digits, digit_count, options);
     let sci_exp = sci_exp + carried as i32;
+    // Rounding can leave only zeros after the first digit: the mantissa is
+    // then integral, and trimming floats must treat it as such.
+    if options.trim_floats() && digits[1..digit_count].iter().all(|&c| c == b'0') {
+        digit_count = 1;
+    }
 
     // Determine the exact number of digits to write.
     let exact_count = shared::min_exact_digits(digit_count, options);
@@ -223,6 +229,14 @@ pub fn write_float_positive_exponent<F: DragonboxFloat, const FORMAT: u128>(
 
     // Now, check if we have shift digits.
     let leading_digits = sci_exp as usize + 1 + carried as usize;
+    // Rounding can leave only zeros after the leading digits: the value is
+    // then integral, and trimming floats must treat it as such.
+    if options.trim_floats()
+        && digit_count > leading_digits
+        && bytes[leading_digits..digit_count].iter().all(|&c| c == b'0')
+    {
+        digit_count = leading_digits;
+    }
     let mut cursor: usize;
     let mut trimmed = false;
     if leading_digits >= digit_count {
